@@ -955,6 +955,72 @@ def history_run(rep, verbose=False):
     return None
 
 
+# ---- multi-position apertures: every mask of the list must be the mask of a single-position aperture ------------
+def multi_check(rep, verbose=False):
+    """message (or None) for one multi-position aperture: (i) each mask == the mask of a fresh single-position
+    aperture (bitwise, same bbox), (ii) the masks do not share memory and scribbling on one leaves the others
+    unchanged, (iii) a second to_mask call gives the same masks.  Also returns the list of masks."""
+    from photutils import aperture as ap
+    cls = {'circle': ap.CircularAperture, 'cannulus': ap.CircularAnnulus, 'ellipse': ap.EllipticalAperture,
+           'eannulus': ap.EllipticalAnnulus, 'rect': ap.RectangularAperture, 'rannulus': ap.RectangularAnnulus}[rep['fam']]
+    pos = [tuple(p_) for p_ in rep['positions']]
+    arr = np.array(pos, dtype=np.float64)      # the caller's own array
+    aper = cls(arr, **rep['params'])
+    masks = aper.to_mask(method=rep['method'], subpixels=rep['sub'])
+    if len(masks) != len(pos) or len(aper.bbox) != len(pos):
+        return f'{len(masks)} masks / {len(aper.bbox)} boxes for {len(pos)} positions', None
+    pristine = [np.array(m.data, copy=True) for m in masks]
+    for k, (xy, m) in enumerate(zip(pos, masks)):
+        single = cls(xy, **rep['params'])
+        ms = single.to_mask(method=rep['method'], subpixels=rep['sub'])
+        if m.bbox != ms.bbox or aper.bbox[k] != single.bbox:
+            return f'position {k} {xy}: bbox {m.bbox} but a single-position aperture there has {ms.bbox}', masks
+        if m.data.shape != ms.data.shape or not np.array_equal(m.data, ms.data, equal_nan=True):
+            return (f'position {k} {xy}: mask differs from the mask of a single-position aperture at that position '
+                    f'(min weight {float(np.nanmin(m.data))!r} vs {float(np.nanmin(ms.data))!r}, sum '
+                    f'{float(np.nansum(m.data))!r} vs {float(np.nansum(ms.data))!r})'), masks
+        if verbose:
+            print(f'  position {k} {xy}: bbox {m.bbox} equals the single-position mask')
+    for i in range(len(masks)):
+        for j in range(i + 1, len(masks)):
+            if np.shares_memory(masks[i].data, masks[j].data):
+                return f'masks of positions {i} and {j} share memory', masks
+    for i in range(len(masks)):     # scribble on one, the others must not change
+        if masks[i].data.flags.writeable and masks[i].data.size:
+            masks[i].data[...] += 7.0
+            for j in range(len(masks)):
+                if j != i and not np.array_equal(masks[j].data, pristine[j], equal_nan=True):
+                    return f'writing into the mask of position {i} changed the mask of position {j}', masks
+            masks[i].data[...] = pristine[i]
+    again = aper.to_mask(method=rep['method'], subpixels=rep['sub'])
+    for k, (a_, b_) in enumerate(zip(again, pristine)):
+        if a_.data.shape != b_.shape or not np.array_equal(a_.data, b_, equal_nan=True):
+            return f'a second to_mask call gives a different mask at position {k}', masks
+    arr += 2.0       # the caller re-uses its array: the aperture (and its cached boxes) must not move
+    if not np.array_equal(np.asarray(aper.positions, float), np.array(pos, float)):
+        return ('the aperture positions alias the array passed by the caller: after the caller modified its array the '
+                f'aperture sits at {np.asarray(aper.positions).tolist()} while its cached bbox is still {aper.bbox[0]}'), masks
+    return None, masks
+
+
+def gen_multi(rng, fam):
+    case = None
+    while case is None or case['fam'] != fam or max(v for k_, v in case['params'].items() if k_ != 'theta') > 5:
+        case = gen_mask_case(rng, 'quick')
+    fx, fy = rng.choice([(0.0, 0.0), (0.5, 0.5), (0.25, 0.25), (0.5, 0.25), (0.0, 0.5),
+                         (rng.randrange(1024) / 1024, rng.randrange(1024) / 1024)])
+    n_same = rng.choice([2, 3, 4])
+    pos = [[rng.randint(-3, 20) + fx, rng.randint(-3, 20) + fy] for _ in range(n_same)]
+    for _ in range(rng.choice([0, 1, 2])):     # mixed with positions of a different sub-pixel phase
+        pos.append([rng.randint(-3, 20) + rng.choice([0.125, 0.375, 0.75]), rng.randint(-3, 20) + rng.choice([0.625, 0.875])])
+    if rng.random() < 0.3:
+        pos.append(list(pos[0]))               # a repeated position
+    rng.shuffle(pos)
+    method = rng.choice(['center', 'subpixel', 'exact'])
+    return dict(kind='multi', fam=fam, params=dict(case['params']), positions=pos, method=method,
+                sub=rng.choice([1, 2, 3, 4]) if method == 'subpixel' else rng.choice([1, 5]))
+
+
 # ---- interleaved histories of different classes (pixel and sky), one ordering per fresh interpreter -------------
 # Module / class level state of the aperture package persists for the whole process, so which class is the first
 # to have a parameter re-assigned can decide what later re-assignments invalidate: every ordering runs in its own
@@ -1096,7 +1162,9 @@ def run(ctx):
         'the compiled kernels AND through the re-interpreted .pyx text; huge shapes (60..300 px) with Python oracles '
         'only; per-class histories (every shape attribute, theta and positions re-assigned one at a time after the '
         'caches were filled, compared with a fresh aperture and with the oracles/model; plus interleaved histories '
-        'over all twelve pixel+sky classes with a randomised first class, each ordering in a fresh interpreter); BoundingBox '
+        'over all twelve pixel+sky classes with a randomised first class, each ordering in a fresh interpreter); '
+        'multi-position apertures with equal and distinct sub-pixel phases (each mask == single-position mask, no shared '
+        'memory, repeatable); BoundingBox '
         'from_float/slices/union/intersection on random and boundary boxes incl. zero-size images; '
         'non-trivial = non-empty mask / non-empty overlap; distinct by (class, params, position, method, subpixels)')
     ctx.cov['partial_clauses'] = [
@@ -1129,7 +1197,7 @@ def run(ctx):
                              ['sky', 'noncircular', 'circular', 'any'] * 3)]
     inter_procs = [(sp, interleaved_spawn(sp)) for sp in inter_specs]
     # ---------------- masks ----------------
-    n = 220 if quick else 750
+    n = 180 if quick else 750
     coq_cases, descr = [], []
     text_differs = 0
 
@@ -1319,6 +1387,33 @@ def run(ctx):
         if not r.get('ok'):
             ctx.violation(f"history:interleaved:{r.get('fam')}:reassign-{r.get('attr')}", r.get('msg', ''),
                           dict(sp, steps=r.get('steps'), tb=r.get('tb')))
+    # ---------------- multi-position apertures (equal and distinct sub-pixel phases) ----------------
+    for k in range(18 if quick else 150):
+        rep = gen_multi(rng, FAMS[k % 6])
+        ctx.stat('multi-position', rep['fam'])
+        ctx.stat('multi-position', 'positions', len(rep['positions']))
+        ctx.count_case(['multi', rep['fam'], rep['params'], rep['positions'], rep['method'], rep['sub']])
+        try:
+            msg, masks = multi_check(rep)
+        except Exception as e:   # noqa: BLE001
+            msg, masks = f'raises {type(e).__name__}: {e}', None
+        if msg:
+            ctx.violation(f"to_mask:{rep['fam']}:multi-position", msg, rep)
+            continue
+        # one mask of the list also goes through the oracles and the model like any single-position mask
+        j = rng.randrange(len(masks))
+        case = dict(fam=rep['fam'], params=rep['params'], px=rep['positions'][j][0], py=rep['positions'][j][1],
+                    method=rep['method'], sub=rep['sub'], lat=False, exact_arith=False, pos_kind='multi')
+        m = masks[j]
+        bb = (m.bbox.ixmin, m.bbox.ixmax, m.bbox.iymin, m.bbox.iymax)
+        if m.data.size <= 400:
+            aper1 = make_aperture(case)
+            report(direct_checks(ctx, case, aper1, m.data, bb, 'compiled'))
+            if m.data.size * eff_sub(case)[2] ** 2 <= 1500:
+                t = mask_case_coq(case, aper1, m.data, bb)
+                if t is not None and t is not UNDECIDED:
+                    coq_cases.append(t)
+                    descr.append((case, 'compiled'))
     # ---------------- bounding-box algebra, from_float and slices ----------------
     from photutils.aperture import BoundingBox
     nb = 200 if quick else 2000
@@ -1562,6 +1657,11 @@ def replay(obj):
         msg = box_replay(r)
     elif kind == 'to_image':
         msg = to_image_check(r)
+    elif kind == 'multi':
+        try:
+            msg, _ = multi_check(r, verbose=True)
+        except Exception as e:   # noqa: BLE001
+            msg = f'raises {type(e).__name__}: {e}'
     elif kind == 'interleaved':
         res = interleaved_collect(interleaved_spawn({k_: r[k_] for k_ in ('kind', 'seed', 'first')}))
         for st in res.get('steps', []):
